@@ -36,6 +36,7 @@ def main(argv=None):
             payload = json.load(f)
         rc = mod.replay(payload)
         sys.exit(rc)
+    os.environ["VERIF_TIER_EFFECTIVE"] = args.tier
     try:
         rc = mod.run(args.tier, seed)
     except SystemExit:
